@@ -1409,7 +1409,7 @@ const char* rtosc_skip_next_printed_arg(const char* src, int* skipped,
                 rtosc_arg_val_t llhsarg, lhsarg, rhsarg;
                 char lhstype = deltaless_range_type ? deltaless_range_type
                                                     : *type,
-                     llhstype, rhstype[2] = "x";
+                     llhstype = 0, rhstype[2] = "x";
 
                 *type = '-'; // TODO: bug? return scanned type instead,
                              //       to avoid [0.1 1 ...5]
@@ -1470,17 +1470,29 @@ const char* rtosc_skip_next_printed_arg(const char* src, int* skipped,
                 bool llhsarg_is_useless = false;
                 if(llhssrc)
                 {
-                    const char* next_ellipsis_from_llhssrc =
-                            strstr(llhssrc, "...");
-                    if(next_ellipsis_from_llhssrc < ellipsis)
-                    {
-                        llhssrc = next_ellipsis_from_llhssrc + 2;
-                        while(isspace(*++llhssrc)) ;
-                    }
-                    else if(is_range_multiplier(llhssrc))
+                    if(is_range_multiplier(llhssrc))
                     {
                         llhssrc = strchr(llhssrc, 'x') + 1;
                     }
+                    // was the previous argument a range "a ... b"? Then "b"
+                    // is wanted. Find the ellipsis by skipping "a", not by
+                    // searching the text: strings and time tags
+                    // ("(...+0x1p-1s)") contain dots, too
+                    const char* after_first =
+                        rtosc_skip_next_printed_arg(llhssrc, &llhsskipped,
+                                                    &llhstype, NULL, 0,
+                                                    inside_bundle);
+                    if(after_first)
+                    {
+                        while(isspace(*after_first)) ++after_first;
+                        if(after_first < ellipsis &&
+                           !strncmp(after_first, "...", 3))
+                        {
+                            llhssrc = after_first + 2;
+                            while(isspace(*++llhssrc)) ;
+                        }
+                    }
+                    llhstype = 0;
 
                     rtosc_skip_next_printed_arg(llhssrc,
                                                 &llhsskipped, &llhstype,
